@@ -277,8 +277,12 @@ func contextRefName(contextOfCall protoreflect.Descriptor, refElement protorefle
 	refPath := pathToPackage(refElement)
 	contextPath := pathToPackage(contextOfCall)
 
+	// The last element is the referenced type's own name and must always remain:
+	// a message which refers to itself or to one of its ancestors (including the
+	// value type of a map field, whose context is the map entry) would
+	// otherwise get an empty type name.
 	for i := 0; i < len(contextPath); i++ {
-		if len(refPath) == 0 || refPath[0] != contextPath[i] {
+		if len(refPath) <= 1 || refPath[0] != contextPath[i] {
 			break
 		}
 		refPath = refPath[1:]
